@@ -3,7 +3,7 @@
 namespace vd
 {
 
-    __attribute__((weak)) js::val mode_mt(const js::val&) { throw std::runtime_error("mt: not implemented"); }
+
 
 
 }
